@@ -2,6 +2,7 @@
      field <p> <k> <f> <g>            -> "F <q> <one> <mone> H <h1> <h2> <h3> C <tables_ok 0/1> P <fg_ok 0/1> [T l2p | p2l | pl1]"   (tables in full when q <= 1024)
      op1 <code> a | op2 <code> a b | op3 <code> a b c      -> result
      arr <code> <pre 0/1> <sz> <scalar> | r.. | x.. | y..  -> result list or UB
+     arrl <code> <sz> <s> <t> <lr> <la> <lb> | A0 | A1 | A2  -> the destination array after the call on the store [A0;A1;A2] or UB
      dot <sz> | a.. | b..                                    -> result or UB
      xop <p> <k> <f> <code> a b c   -> Extension<> operation of ExtModel.v on p-adic operands (stateless)
      xinv <p> <k> <f> <0|1> a b     -> Extension<> inv a (0) / div a b (1) of ExtModel.v (Poly1Dom::invmod); -1 = no answer
@@ -48,6 +49,15 @@ let () = run_lines (fun toks ->
      | [r; x; y] ->
        let l = List.map zs in
        (match Model.arr (tab ()) (zs c) (pre = "1") (zs sz) (l r) (l x) (l y) (zs s) with
+        | Some res -> "R " ^ show res
+        | None -> "UB")
+     | _ -> "BAD-LINE")
+  | "arrl" :: c :: sz :: s :: tt :: lr :: la :: lb :: "|" :: rest ->
+    (* arrays as locations: three arrays A0 | A1 | A2, the arguments r, x, y of the call are the locations lr, la, lb *)
+    (match split_bar rest [] [] with
+     | [a0; a1; a2] ->
+       let l = List.map zs in
+       (match Model.arrl (tab ()) (zs c) (zs sz) (zs lr) (zs la) (zs lb) [l a0; l a1; l a2] (zs s) (zs tt) with
         | Some res -> "R " ^ show res
         | None -> "UB")
      | _ -> "BAD-LINE")
